@@ -10,6 +10,7 @@ observable and checked against generic invariants.
 from .. import flowcheck
 from .. import floworacle as fo
 from .. import floworacle_r3 as f3
+from .. import floworacle_r4 as f4
 
 LEAN_MODULES = ['Props.C02', 'Props.Agreement']
 TRUSTED = ['harness/flow_impl.py (yaml renderer, canonicaliser, virtual clock, scripted random.uniform)',
@@ -27,7 +28,10 @@ def run(env, res):
                 'None/0/\'\'/False/[]/{}, 12% with a malformed group body or sequence item, 35% written in another '
                 'yaml layout: flow style, JSON, first step on line 1, other indentation, single-quoted / plain / block scalars, anchors + aliases, merge keys; every 4th case runs with the root logger at DEBUG, every 8th at INFO, every 8th at NOTIFY - the log level is an input); a case is '
                 'non-trivial when the model accepts it and it terminates; distinct by canonical program text')
-    directed = [('c02', fo.c02_family, env.n(900, 100000)), ('c01-straight', fo.c01_family, env.n(150, 2000)),
+    directed = [('c02-config-in-context-twice', f4.c02_config_in_context_family, env.n(130, 100000)),
+                ('c02-jump-config-in-context', f4.c02_jump_config_in_context_family, env.n(20, 100000)),
+                ('c01-handler-hands-over', f4.c01_handover_family, env.n(60, 100000)),
+                ('c02', fo.c02_family, env.n(900, 100000)), ('c01-straight', fo.c01_family, env.n(150, 2000)),
                 ('c02-parser-handler', fo.c02_parser_handler_family, env.n(18, 100000)),
                 ('c11-self', fo.c11_self_family, env.n(20, 100000)), ('c01-names', fo.c01_names_family, env.n(20, 100000)),
                 ('c02-jump-queue', f3.c02_jump_queue_family, env.n(27, 100000)),
